@@ -39,6 +39,7 @@ type Input struct {
 	HeadSeq    *HeadSeqIn    `json:"headseq,omitempty"`
 	DynamicSeq *DynamicSeqIn `json:"dynamicseq,omitempty"`
 	ProposeSeq *ProposeSeqIn `json:"proposeseq,omitempty"`
+	BidSeq     *BidSeqIn     `json:"bidseq,omitempty"` // p10_bids_test.go: one builder-bid strategy, several auctions
 	Tags       []string      `json:"tags,omitempty"`
 }
 
@@ -134,6 +135,8 @@ func runInput(t *testing.T, in Input) result {
 		return runDynamicSeq(t, in.DynamicSeq)
 	case "proposeseq":
 		return runProposeSeq(t, in.ProposeSeq)
+	case "bidseq":
+		return runBidSeq(t, in.BidSeq)
 	}
 	t.Fatalf("unknown path %q", in.Path)
 	return result{}
@@ -147,6 +150,10 @@ func genInput(r *Rand, k int) Input {
 		}
 		return Input{Path: "propose", Propose: genPropose(r)}
 	case 1:
+		// every other one: a session of one builder-bid strategy over several auctions
+		if (k/8)%2 == 1 {
+			return Input{Path: "bidseq", BidSeq: genBidSeq(r)}
+		}
 		return Input{Path: "relays", Relays: genRelays(r)}
 	case 2:
 		return Input{Path: "graffiti", Graffiti: genGraffiti(r)}
@@ -173,10 +180,10 @@ func genInput(r *Rand, k int) Input {
 func TestC16(t *testing.T) {
 	setup()
 	col := NewCollector("C16", "Check.C16",
-		"one case = one input of one of eight paths (propose, relays, graffiti, config, duties, head, errbody, dynamic) or one session of one service over providers scripted call by call (headseq, dynamicseq, proposeseq), run on the real code with recover(); "+
+		"one case = one input of one of eight paths (propose, relays, graffiti, config, duties, head, errbody, dynamic) or one session of one service over providers scripted call by call (headseq, dynamicseq, proposeseq, bidseq), run on the real code with recover(); "+
 			"non-trivial = the input carries the unexpected content of its path (blinded without auction result, unusable relay, {{CLIENT}} template, null/malformed config entry, "+
 			"duplicate/oversize/out-of-range duty, nil-bearing or unknown-version block, null/real failure entry, blank/CRLF/empty/missing file; "+
-			"for the sessions headseq and dynamicseq: a script whose answers differ from call to call, fail, or carry nothing); distinct by input text")
+			"for the sessions headseq and dynamicseq: a script whose answers differ from call to call, fail, or carry nothing; for bidseq: a relay with a public key whose bid reaches the signature check); distinct by input text")
 	n := EnvInt("VERIF_N", 1600)
 	var ins []Input
 	for _, in := range LoadInputs[Input]("C16") {
